@@ -44,6 +44,13 @@ def run(tier):
     for rep in range(3 if tier == "quick" else 60):
         jobs.append({"family": "narrowing_chain", "seed": "c02n-%d-%d" % (vlib.seed(), rep),
                      "args": ["--accelerator-config", "ethos-u55-128", "--arena-cache-size", str([80000, 90000, 75000][rep % 3])], "capture": True})
+    # a one-channel layer after a layer with many weights: the second core of a two-core accelerator has no weight stream
+    # for it, and the registers of that core keep whatever the previous operation left there
+    for rep in range(6 if tier == "quick" else 150):
+        extra = [[], ["--memory-mode", "Dedicated_Sram", "--system-config", "Ethos_U65_High_End", "--config", compiles.CONFIG_INI],
+                 ["--memory-mode", "Shared_Sram", "--system-config", "Ethos_U65_Embedded", "--config", compiles.CONFIG_INI]][rep % 3]
+        jobs.append({"family": "one_channel_tail", "seed": "c02o-%d-%d" % (vlib.seed(), rep),
+                     "args": ["--accelerator-config", "ethos-u65-512"] + extra, "capture": True})
     jobs = compiles.corpus_jobs() + jobs
     results = compiles.run_all(jobs, timeout=900)
     programs = 0
